@@ -1,4 +1,5 @@
 import KoordVerif.Model.C20
+import KoordVerif.Proofs.C20ExtHist
 /-
 C20 — property theorems (DESIGN.md §4 C20) over the executable model `Model/C20.lean`.
 
@@ -468,6 +469,156 @@ theorem annotation_only_touches_bandwidth (t : Flat) (v : Int) (p : Path) :
   refine ⟨setLeaf t tnbPath (some v), rfl, ?_, ?_⟩
   · simp [get_setLeaf]
   · intro h; simp [get_setLeaf, h]
+
+/-! ### 6. delivery: what reaches the NodeSLO objects, over ALL histories of ConfigMap / node events -/
+
+/-- `stored_eq_recomputed_after_reconcile`: whatever the stored NodeSLO was (equal, different, carrying fields the
+    recomputed spec no longer has, or missing), after Reconcile it is exactly the spec recomputed from the cache. -/
+theorem stored_eq_recomputed_after_reconcile (d : Defaults) (parse : Ident → CM) (w : World) (n : Nat) (ls : Labels)
+    (hn : lookupA w.nodes n = some ls) :
+    lookupA (reconcile d parse w n).slos n = some (nodeSpec (reconcile d parse w n).cfg ls) := by
+  have h := reconcile_correct d parse w n
+  unfold Correct at h
+  rw [h, hn]; rfl
+
+/-- Reconcile of a name without node removes the NodeSLO. -/
+theorem reconcile_removes_orphan (d : Defaults) (parse : Ident → CM) (w : World) (n : Nat)
+    (hn : lookupA w.nodes n = none) : lookupA (reconcile d parse w n).slos n = none := by
+  have h := reconcile_correct d parse w n
+  unfold Correct at h
+  rw [h, hn]; rfl
+
+/-- over ALL histories (ConfigMap create/update/delete, foreign ConfigMaps, node add/relabel/delete, restarts, every
+    enqueued request reconciled): every node's NodeSLO is exactly what the current cache delivers for its current labels. -/
+theorem stored_eq_recomputed_over_histories (d : Defaults) (parse : Ident → CM) (hs : List HStep) (n : Nat) (ls : Labels)
+    (hn : lookupA (hrun d parse (World.init d) hs).nodes n = some ls) :
+    lookupA (hrun d parse (World.init d) hs).slos n = some (nodeSpec (hrun d parse (World.init d) hs).cfg ls) ∧
+    (hrun d parse (World.init d) hs).avail = true := by
+  have h := hrun_inv d parse hs (World.init d) (init_inv d) n
+  constructor
+  · have h1 := h.1
+    unfold Correct at h1
+    rw [h1, hn]; rfl
+  · cases ha : (hrun d parse (World.init d) hs).avail with
+    | true => rfl
+    | false => rw [h.2 ha] at hn; cases hn
+
+/-- … and there is never a NodeSLO without node. -/
+theorem no_orphan_nodeslo_over_histories (d : Defaults) (parse : Ident → CM) (hs : List HStep) (n : Nat)
+    (hn : lookupA (hrun d parse (World.init d) hs).nodes n = none) :
+    lookupA (hrun d parse (World.init d) hs).slos n = none := by
+  have h := (hrun_inv d parse hs (World.init d) (init_inv d) n).1
+  unfold Correct at h
+  rw [h, hn]; rfl
+
+/-- `cache_tracks_latest_data`: after ANY event history, every section of the (available) cache whose CURRENT text is
+    parsable or absent is the from-scratch merge of that text — although Update events with unchanged Data are skipped. -/
+theorem cache_tracks_latest_data (d : Defaults) (parse : Ident → CM) (hs : List HStep) (i : Ident)
+    (ha : (hrun d parse (World.init d) hs).avail = true) (hcm : (hrun d parse (World.init d) hs).cm = some i) :
+    Tracks d (hrun d parse (World.init d) hs).cfg (parse i) :=
+  hrun_cinv d parse hs (World.init d) (init_cinv d parse) ha i hcm
+
+/-- the skipped Update (new.Data DeepEqual old.Data) loses nothing: running syncConfig on it would not change the cache. -/
+theorem skipped_update_loses_nothing (d : Defaults) (parse : Ident → CM) (hs : List HStep) (i : Ident)
+    (ha : (hrun d parse (World.init d) hs).avail = true) (hcm : (hrun d parse (World.init d) hs).cm = some i) :
+    hstep d parse (hrun d parse (World.init d) hs) (.cmUpdate i) = hrun d parse (World.init d) hs ∧
+    sync d (hrun d parse (World.init d) hs).cfg (some (parse i)) = (hrun d parse (World.init d) hs).cfg := by
+  constructor
+  · simp [hstep, hcm]
+  · exact sync_idem_of_tracks d _ _ (cache_tracks_latest_data d parse hs i ha hcm)
+
+/-- an Update/Create event whose section text is unparsable leaves that section of the cache as it was. -/
+theorem cm_event_malformed_keeps_section (d : Defaults) (parse : Ident → CM) (w : World) (i : Ident) :
+    ((parse i).thr = .bad → (cmSync d parse w i).cfg.thr = w.cfg.thr) ∧
+    ((parse i).qos = .bad → (cmSync d parse w i).cfg.qos = w.cfg.qos) ∧
+    ((parse i).burst = .bad → (cmSync d parse w i).cfg.burst = w.cfg.burst) ∧
+    ((parse i).sys = .bad → (cmSync d parse w i).cfg.sys = w.cfg.sys) ∧
+    ((parse i).host = .bad → (cmSync d parse w i).cfg.host = w.cfg.host) := by
+  rw [(cmSync_spec d parse w i).1]
+  exact malformed_keeps_previous_event d w.cfg (parse i)
+
+/-- a cache section that tracks a parsed text delivers, at every path, first matching entry <|> cluster <|> default. -/
+theorem fresh_section_layering (sys : Bool) (dflt : Flat) (cur : SecCfg) (i : SecIn) (c : Option Flat)
+    (pre post : List NodeEntry) (e : NodeEntry) (ls : Labels) (p : Path)
+    (hf : SecFresh sys dflt cur i) (hi : i = .ok c (pre ++ e :: post))
+    (hpre : ∀ x ∈ pre, x.sel.matches ls = false) (he : e.sel.matches ls = true)
+    (hd : sys = true → get dflt tnbPath = some 0) (hc : RootObj sys c) (hs : RootObj sys e.strat) :
+    get (selectNode ls cur) p = lay sys e.strat (lay sys c (get dflt)) p := by
+  subst hi
+  rw [hf (by simp)]
+  exact field_layering sys dflt _ c pre post e ls p hpre he hd hc hs
+
+theorem fresh_section_layering_cluster (sys : Bool) (dflt : Flat) (cur : SecCfg) (i : SecIn) (c : Option Flat)
+    (ns : List NodeEntry) (ls : Labels) (p : Path)
+    (hf : SecFresh sys dflt cur i) (hi : i = .ok c ns) (hns : ∀ x ∈ ns, x.sel.matches ls = false)
+    (hd : sys = true → get dflt tnbPath = some 0) (hc : RootObj sys c) :
+    get (selectNode ls cur) p = lay sys c (get dflt) p := by
+  subst hi
+  rw [hf (by simp)]
+  exact field_layering_cluster sys dflt _ c ns ls p hns hd hc
+
+theorem fresh_section_absent (sys : Bool) (dflt : Flat) (cur : SecCfg) (ls : Labels)
+    (hf : SecFresh sys dflt cur .absent) : selectNode ls cur = dflt := by
+  rw [hf (by simp)]
+  exact absent_is_default sys dflt _ ls
+
+/-- END TO END (system section; the other strategy sections are the same with their component of `Tracks`): after ANY
+    history, the NodeSLO object of node `n` carries, at EVERY path of the system strategy, the value of the first entry
+    of the CURRENT ConfigMap text that selects the node's CURRENT labels, else the cluster value, else the default. -/
+theorem delivered_system_layering (d : Defaults) (parse : Ident → CM) (hs : List HStep) (n : Nat) (ls : Labels)
+    (i : Ident) (c : Option Flat) (pre post : List NodeEntry) (e : NodeEntry) (p : Path)
+    (hn : lookupA (hrun d parse (World.init d) hs).nodes n = some ls)
+    (hcm : (hrun d parse (World.init d) hs).cm = some i)
+    (hsec : (parse i).sys = .ok c (pre ++ e :: post))
+    (hpre : ∀ x ∈ pre, x.sel.matches ls = false) (he : e.sel.matches ls = true)
+    (hd : get d.sys tnbPath = some 0) (hc : RootObj true c) (hsr : RootObj true e.strat) :
+    ∃ spec, lookupA (hrun d parse (World.init d) hs).slos n = some spec ∧
+      (spec[3]?).map (fun t => get t p) = some (lay true e.strat (lay true c (get d.sys)) p) := by
+  have h := stored_eq_recomputed_over_histories d parse hs n ls hn
+  have ht := cache_tracks_latest_data d parse hs i h.2 hcm
+  refine ⟨_, h.1, ?_⟩
+  simp only [nodeSpec, List.getElem?_cons_succ, List.getElem?_cons_zero, Option.map_some]
+  rw [fresh_section_layering true d.sys _ _ c pre post e ls p ht.2.2.2.1 hsec hpre he (fun _ => hd) hc hsr]
+
+/-- same, a section removed from the ConfigMap (the key deleted by an Update): the node gets the built-in default. -/
+theorem delivered_system_absent_is_default (d : Defaults) (parse : Ident → CM) (hs : List HStep) (n : Nat) (ls : Labels)
+    (i : Ident)
+    (hn : lookupA (hrun d parse (World.init d) hs).nodes n = some ls)
+    (hcm : (hrun d parse (World.init d) hs).cm = some i) (hsec : (parse i).sys = .absent) :
+    ∃ spec, lookupA (hrun d parse (World.init d) hs).slos n = some spec ∧ spec[3]? = some d.sys := by
+  have h := stored_eq_recomputed_over_histories d parse hs n ls hn
+  have ht := cache_tracks_latest_data d parse hs i h.2 hcm
+  refine ⟨_, h.1, ?_⟩
+  simp only [nodeSpec, List.getElem?_cons_succ, List.getElem?_cons_zero]
+  have hf := ht.2.2.2.1
+  rw [hsec] at hf
+  rw [fresh_section_absent true d.sys _ ls hf]
+
+/-! non-vacuity of the delivery theorems: a history with set → unset, twice -/
+section HistExamples
+def hxD : Defaults := { thr := [([0], -1)], qos := [([0], -1)], burst := [([0], -1)], sys := [([0], -1), ([1], 0), ([26], 100)] }
+-- text 1: the pool entry (la=x) sets key 27 := 160 on top of cluster key 28 := 5; text 2: the system section is removed
+def hxParse : Ident → CM := fun i =>
+  if i = [0, 1] then
+    { thr := .absent, qos := .absent, burst := .absent, host := .absent,
+      sys := .ok (some [([0], -1), ([28], 5)]) [⟨.reqs [⟨1, 0, [1]⟩], some [([0], -1), ([27], 160)]⟩] }
+  else { thr := .absent, qos := .absent, burst := .absent, sys := .absent, host := .absent }
+def hxSys (hs : List HStep) (p : Path) : Option (Option Int) :=
+  (lookupA (hrun hxD hxParse (World.init hxD) hs).slos 1).map fun spec => get (spec.getD 3 []) p
+-- node 1 (la=x) gets the entry's 160; relabelled to la=y it loses it (set → unset) and keeps the cluster's 5;
+-- after the Update that only REMOVES the section key it is back to the default (28 unset again, 26 = 100)
+example : hxSys [.cmCreate [0, 1], .nodeAdd 1 [(1, 1)]] [27] = some (some 160) := by decide
+example : hxSys [.cmCreate [0, 1], .nodeAdd 1 [(1, 1)], .nodeUpdate 1 [(1, 2)]] [27] = some none ∧
+    hxSys [.cmCreate [0, 1], .nodeAdd 1 [(1, 1)], .nodeUpdate 1 [(1, 2)]] [28] = some (some 5) := by decide
+example : hxSys [.cmCreate [0, 1], .nodeAdd 1 [(1, 1)], .nodeUpdate 1 [(1, 2)], .cmUpdate [0, 0]] [28] = some none ∧
+    hxSys [.cmCreate [0, 1], .nodeAdd 1 [(1, 1)], .nodeUpdate 1 [(1, 2)], .cmUpdate [0, 0]] [26] = some (some 100) := by decide
+-- the hypotheses of `delivered_system_layering` hold on the first history (pre = [], the entry selects la=x)
+example : (hrun hxD hxParse (World.init hxD) [.cmCreate [0, 1], .nodeAdd 1 [(1, 1)]]).cm = some [0, 1] ∧
+    lookupA (hrun hxD hxParse (World.init hxD) [.cmCreate [0, 1], .nodeAdd 1 [(1, 1)]]).nodes 1 = some [(1, 1)] ∧
+    get hxD.sys tnbPath = some 0 := by decide
+-- a restart with an unchanged ConfigMap and a deleted node: the orphan NodeSLO is removed
+example : lookupA (hrun hxD hxParse (World.init hxD) [.cmCreate [0, 1], .nodeAdd 1 [(1, 1)], .nodeDelete 1, .restart true]).slos 1 = none := by decide
+end HistExamples
 
 /-! ### non-vacuity: concrete configuration with overlapping selectors, all three layers, an array -/
 
